@@ -23,7 +23,7 @@ const char *const exec_props = "C01 C02 C03 C12";
 
 namespace {
 
-enum Shape { FREE = 0, BATCH = 1, READER_HEAVY = 2, ORDERING = 3, WRITER_FREE = 4, RENDEZVOUS = 5 };
+enum Shape { FREE = 0, BATCH = 1, READER_HEAVY = 2, ORDERING = 3, WRITER_FREE = 4, RENDEZVOUS = 5, TWO_RESOURCES = 6 };
 
 struct Req { int tid; bool w; long call = -1, park = -1, ret = -1, unl = -1; bool wseen = false; int nparks = 0; };
 
@@ -168,14 +168,15 @@ void exec_case(const Case &c) {
         if (shape == WRITER_FREE) q.k = 0;
         p.per[(size_t)((unsigned)o.a % (unsigned)nth)].push_back(q);
     }
-    static const char *shapes[] = {"shape_free", "shape_batch", "shape_reader_heavy", "shape_ordering", "shape_writer_free", "shape_rendezvous"};
-    label(shapes[shape >= 0 && shape <= 5 ? shape : 0]);
+    static const char *shapes[] = {"shape_free", "shape_batch", "shape_reader_heavy", "shape_ordering", "shape_writer_free", "shape_rendezvous", "shape_two_resources"};
+    label(shapes[shape >= 0 && shape <= 6 ? shape : 0]);
 
     vsched::on_deadlock = on_deadlock; vsched::on_park = on_park; vsched::on_wake = on_wake; vsched::on_switch = on_switch; vsched::on_step_limit = on_steps;
     vsched::begin(c.sched.data(), c.sched.size());
     {
         auto resp = std::make_unique<Resource>();
         Resource &res = *resp;
+        Resource other;
         res_lo = resp.get(); res_hi = (const char *)resp.get() + sizeof(Resource);
         std::vector<std::thread> th;
 
@@ -225,6 +226,18 @@ void exec_case(const Case &c) {
                     }
                 });
             }
+        } else if (shape == TWO_RESOURCES) {
+            // a second, unrelated Resource that is only ever read-locked (so it can never block anybody): some requests on
+            // the Resource under test are issued while the thread holds a read lock on the other one.  Locks of different
+            // Resources must not influence each other.
+            for (int i = 0; i < nth; ++i)
+                th.emplace_back([&, i] {
+                    int tid = vsched::self();
+                    for (const Op &o : p.per[(size_t)i]) {
+                        if (o.b & 8) { label("holds_other_resource"); other.lockRead(); do_op(res, o, tid); other.unlockRead(); }
+                        else do_op(res, o, tid);
+                    }
+                });
         } else {
             for (int i = 0; i < nth; ++i)
                 th.emplace_back([&, i] {
